@@ -13,6 +13,7 @@ import (
 	"strings"
 	"sync"
 	"sync/atomic"
+	"time"
 
 	"github.com/tormoder/fit"
 
@@ -30,7 +31,7 @@ func registerC09() {
 			"executing a PRNG sequence of Decode (with and without options and a formatting logger, on intact and on corrupted private copies) / DecodeChained / CheckIntegrity / DecodeHeader / DecodeHeaderAndFileID / Header.MarshalJSON / Encode of decoded Files / NewHeader+NewFile+constructors+Encode+Decode of API-built Files / String methods through readers and " +
 			"writers that yield and deliver short reads, so that calls interleave inside the library; pool A = inputs without accumulated component sources, pool B = with. " +
 			"Oracle 1: every race-detector report (GORACE halt_on_error=0, log parsed) is classified by the innermost repository frames of its two stacks; oracle 2: every call's " +
-			"result digest equals the digest of the same call run alone before the goroutines start. Non-trivial: a call that overlapped in time (logical clock) with a call of " +
+			"result digest equals the digest of the same call run alone (taken before the goroutines start, or - in every second run, a 'cold start' - after they have finished, so that the process's first calls into the library are concurrent). Non-trivial: a call that overlapped in time (logical clock) with a call of " +
 			"another goroutine; distinct by (run, goroutine, position)",
 		Assume: []string{
 			"known finding F5 signature: both innermost repository frames in {(*RecordMsg).expandComponents, (*uint32Accumulator).accumulate, uint32NewAccumulator}; under pool B record.distance of records with compressed_speed_distance is excluded from the digest",
@@ -50,6 +51,7 @@ type c09Result struct {
 	Panics      []string         `json:"panics"`
 	Goroutines  int              `json:"goroutines"`
 	Pool        string           `json:"pool"`
+	Cold        bool             `json:"cold"`
 }
 
 // c09Inputs returns the two pools: A without accumulated component sources, B with.
@@ -224,18 +226,28 @@ func C09Sub(args []string) int {
 	if poolB {
 		pool = b
 	}
-	// Sequential baseline: every (kind, input) alone.
+	// Sequential baseline: every (kind, input) alone. In every second run it is taken AFTER the
+	// concurrent phase ("cold start"): the goroutines then make the process's very first calls into the
+	// library at the same moment, so lazily initialised package state is first touched concurrently.
+	cold := runIdx%2 == 1
 	base := map[[2]int]string{}
-	for k := 0; k < len(c09KindNames); k++ {
-		if k == 6 || k == 7 {
-			// kinds 6/7 are the default branch (Decode+Encode, two byte orders)
-		}
-		for i := range pool {
-			base[[2]int{k, i}] = c09Call(c09Kind(k), pool[i], lib.NewRand("C09.base", uint64(k*100+i)), poolB)
+	takeBase := func() {
+		for k := 0; k < len(c09KindNames); k++ {
+			for i := range pool {
+				base[[2]int{k, i}] = c09Call(c09Kind(k), pool[i], lib.NewRand("C09.base", uint64(k*100+i)), poolB)
+			}
 		}
 	}
+	if !cold {
+		takeBase()
+	}
 	res := c09Result{Pairs: map[string]int64{}, Goroutines: g, Pool: args[3]}
-	var clock int64
+	type obsCall struct {
+		g, n, k, i int
+		d          string
+	}
+	var observed []obsCall
+	var clock, goFlag int64
 	type span struct {
 		g, kind    int
 		start, end int64
@@ -255,6 +267,8 @@ func C09Sub(args []string) int {
 				mine[i] = append([]byte{}, pool[i]...)
 			}
 			<-start
+			for atomic.LoadInt64(&goFlag) == 0 {
+			}
 			for n := 0; n < per; n++ {
 				k := rng.Intn(len(c09KindNames))
 				i := rng.Intn(3) // few distinct inputs: all goroutines hammer the same message kinds
@@ -265,21 +279,30 @@ func C09Sub(args []string) int {
 				d := c09Call(c09Kind(k), mine[i], rng, poolB)
 				t1 := atomic.AddInt64(&clock, 1)
 				spans[gi] = append(spans[gi], span{gi, k, t0, t1})
-				if d != base[[2]int{k, i}] {
-					mu.Lock()
-					if len(res.Mismatch) < 10 {
-						res.Mismatch = append(res.Mismatch, fmt.Sprintf("goroutine %d call %d (%s on input %d): result differs from the same call run alone", gi, n, c09KindNames[k], i))
-					}
-					if strings.HasPrefix(d, "PANIC:") && len(res.Panics) < 5 {
-						res.Panics = append(res.Panics, d)
-					}
-					mu.Unlock()
-				}
+				mu.Lock()
+				observed = append(observed, obsCall{gi, n, k, i, d})
+				mu.Unlock()
 			}
 		}(gi)
 	}
 	close(start)
+	time.Sleep(20 * time.Millisecond)
+	atomic.StoreInt64(&goFlag, 1)
 	wg.Wait()
+	if cold {
+		takeBase()
+	}
+	for _, ob := range observed {
+		if ob.d != base[[2]int{ob.k, ob.i}] {
+			if len(res.Mismatch) < 10 {
+				res.Mismatch = append(res.Mismatch, fmt.Sprintf("goroutine %d call %d (%s on input %d): result differs from the same call run alone", ob.g, ob.n, c09KindNames[ob.k], ob.i))
+			}
+			if strings.HasPrefix(ob.d, "PANIC:") && len(res.Panics) < 5 {
+				res.Panics = append(res.Panics, ob.d)
+			}
+		}
+	}
+	res.Cold = cold
 	// Overlap statistics from the logical clock.
 	var all []span
 	for _, s := range spans {
